@@ -1,81 +1,121 @@
-import Aqua.Exec.Streams
+import Aqua.Exec.Lens
 /-
 Replica of the instruction executor (`air/src/execution_step/instructions/**`, `resolver/**`,
-`lambda_applier/**`) for the stream-free fragment: call (scalar / no output), seq, par, xor, match,
-mismatch, scalar ap, scalar fold + next, new on scalars, fail, null, never.  Anything else yields
-`ExecErr.unmodelled`.  `exec` takes fuel because `next` re-enters the fold body.
+`lambda_applier/**`): the resolver (scalars, canon streams, canon stream maps, with and without lens),
+errors → `:error:` / `%last_error%`, the CID state, and the parts of `call` that bind results.
+`exec` (in `Exec.lean`) takes fuel because `next` re-enters the fold body.
 -/
 namespace Aqua.Exec
 open Aqua Aqua.Json Aqua.Air Aqua.Data Aqua.Trace
 
-/-! ## lens applier (`lambda_applier/{applier,utils}.rs`) -/
+/-! ## canon streams / canon stream maps as values (`value_types/jvaluable/{canon_stream,canon_stream_map}.rs`,
+`value_types/canon_stream_map.rs`, the tetraplet part of `lambda_applier/applier.rs`) -/
 
-def tryNumberToU32 (n : JVal) : Res LambdaErr Nat :=
-  match n with
-  | .num i => if 0 ≤ i ∧ i ≤ 4294967295 then .ok i.toNat else .error (.indexAccessNotU32 n)
-  | _ => .error (.indexAccessNotU32 n)
+/-- the value part of a canon map, on which the lens applier of `Lens.lean` is specified -/
+def CanonStreamMapAgg.toLens (m : CanonStreamMapAgg) : Lens.CanonStreamMap :=
+  ⟨m.values.map (·.result), m.map.map fun x => (x.1, x.2.values.map (·.result))⟩
 
-def tryJvalueWithIdx (v : JVal) (idx : Nat) : Res LambdaErr JVal :=
-  match v with
-  | .arr a => match a[idx]? with
-    | some x => .ok x
-    | none => .error (.valueNotContainSuchArrayIdx v idx)
-  | _ => .error (.arrayAccessorNotMatchValue v idx)
+/-- `CanonStreamMap::index` (`HashMap::get`) -/
+def CanonStreamMapAgg.index (m : CanonStreamMapAgg) (k : Lens.StreamMapKey) : Option CanonStream :=
+  (m.map.find? (fun x => x.1 = k)).map (·.2)
 
-def tryJvalueWithFieldName (v : JVal) (field : String) : Res LambdaErr JVal :=
-  match v with
-  | .obj _ => match v.getField field with
-    | some x => .ok x
-    | none => .error (.valueNotContainSuchField v field)
-  | _ => .error (.fieldAccessorNotMatchValue v field)
+/-- `CanonStreamMap::as_jvalue` (see `Lens.CanonStreamMap.asJvalue` for the hash-order caveat when two keys
+render to the same text) -/
+def CanonStreamMapAgg.asJvalue (m : CanonStreamMapAgg) : JVal := m.toLens.asJvalue
 
-/-- `select_by_jvalue` -/
-def selectByJvalue (v accessor : JVal) : Res LambdaErr JVal :=
-  match accessor with
-  | .str s => tryJvalueWithFieldName v s
-  | .num _ => (tryNumberToU32 accessor).bind fun i => tryJvalueWithIdx v i
-  | .float _ => .error (.indexAccessNotU32 accessor)
-  | a => .error (.scalarAccessorHasInvalidType a)
+/-- `CanonStreamMap::is_empty` (`self.map.is_empty()`) -/
+def CanonStreamMapAgg.isEmpty (m : CanonStreamMapAgg) : Bool := m.map.isEmpty
 
-def liftLambda {α} (r : Res LambdaErr α) : ER α := r.mapErr fun e => .catchable (.lambdaApplierError e)
+/-- `get_value_from_obj` on an aggregate: the `value` member with the pair's tetraplet, position, provenance -/
+def getValueFromObjAgg (kv : ValueAggregate) : ER ValueAggregate :=
+  (Lens.getValueFromObj kv.result).bind fun v => .ok (ValueAggregate.new v kv.tetraplet kv.tracePos kv.provenance)
 
-/-- the JSON value a scalar name denotes (`ScalarRef` → `get_result()` / peeked item) -/
-def scalarRefValue (r : ScalarRef) : ER JVal :=
-  match r with
-  | .value v => .ok v.result
-  | .iterableValue f => do
-    let x ← f.iterable.peekExpect
-    pure (itemIntoResolvedResult x).result
+/-- `map.entry(key).or_insert(CanonStream::new(vec![], tetraplet)).push(value)` -/
+def entryPushAgg (m : List (Lens.StreamMapKey × CanonStream)) (t : Tetraplet) (k : Lens.StreamMapKey) (v : ValueAggregate) :
+    List (Lens.StreamMapKey × CanonStream) :=
+  match m with
+  | [] => [(k, ⟨[v], t⟩)]
+  | (k', cs) :: rest => if k' = k then (k', { cs with values := cs.values ++ [v] }) :: rest else (k', cs) :: entryPushAgg rest t k v
 
-/-- `select_by_path_from_scalar` -/
-def selectByPathFromScalar (scalars : Scalars) (v : JVal) : List Accessor → ER JVal
-  | [] => .ok v
-  | .arrayAccess i :: rest => do
-    let v' ← liftLambda (tryJvalueWithIdx v i)
-    selectByPathFromScalar scalars v' rest
-  | .fieldByName n :: rest => do
-    let v' ← liftLambda (tryJvalueWithFieldName v n)
-    selectByPathFromScalar scalars v' rest
-  | .fieldByScalar s :: rest => do
-    let r ← scalars.getValue s
-    let a ← scalarRefValue r
-    let v' ← liftLambda (selectByJvalue v a)
-    selectByPathFromScalar scalars v' rest
+/-- the loop of `CanonStreamMap::from_canon_stream` -/
+def fromCanonStreamLoopAgg (t : Tetraplet) (m : List (Lens.StreamMapKey × CanonStream)) : List ValueAggregate → ER (List (Lens.StreamMapKey × CanonStream))
+  | [] => .ok m
+  | kv :: rest =>
+    match Lens.StreamMapKey.fromKvpairOwned kv.result with
+    | none => uncatchable .streamMapKeyError
+    | some key =>
+      match getValueFromObjAgg kv with
+      | .ok v => fromCanonStreamLoopAgg t (entryPushAgg m t key v) rest
+      | .error e => .error e
+      | .panic s => .panic s
 
-/-- `select_by_lambda_from_scalar` -/
-def selectByLambdaFromScalar (scalars : Scalars) (v : JVal) (l : Lambda) : ER JVal :=
+/-- `CanonStreamMap::from_canon_stream` -/
+def CanonStreamMapAgg.fromCanonStream (cs : CanonStream) : ER CanonStreamMapAgg :=
+  match fromCanonStreamLoopAgg cs.tetraplet [] cs.values with
+  | .ok m => .ok ⟨cs.values, m, cs.tetraplet⟩
+  | .error e => .error e
+  | .panic s => .panic s
+
+def lensOfLambda {α} (l : Lambda) (k : Lens.LambdaAST → ER α) : ER α :=
+  match Lens.LambdaAST.ofLambda l with
+  | some lam => k lam
+  | none => unmodelled "lens with an empty path (not constructible: `NonEmpty` in Rust)"
+
+/-- `JValuable for &CanonStream :: apply_lambda_with_tetraplets`: an indexed element brings its own tetraplet and
+provenance; the functor result gets the current peer with the lens text in the *service* field (sic) and the
+root provenance -/
+def canonStreamApplyLambda (c : Ctx) (cs : CanonStream) (l : Lambda) (rootProvenance : Provenance) : ER (JVal × Tetraplet × Provenance) :=
+  lensOfLambda l fun lam =>
+    match Lens.selectByLambdaFromStream c.scalars (cs.values.map (·.result)) lam with
+    | .ok r =>
+      match r.tetrapletIdx with
+      | some idx =>
+        match cs.values[idx]? with
+        | some va => .ok (r.result, va.tetraplet, va.provenance)
+        | none => .panic "jvaluable/canon_stream.rs:apply_lambda_with_tetraplets:nth(idx).expect(TETRAPLET_IDX_CORRECT)"
+      | none => .ok (r.result, { peerPk := c.currentPeerId, serviceId := l.render }, rootProvenance)
+    | .error e => .error e
+    | .panic s => .panic s
+
+/-- `update_tetraplet_with_path` -/
+def updateTetrapletWithPath (t : Tetraplet) (path : String) (prefixWithPath : Bool) : Tetraplet :=
+  { t with lens := if prefixWithPath then t.lens ++ path else path }
+
+/-- tetraplet part of `select_by_path_from_canon_map_stream` (the value part is `Lens.selectByPathFromCanonMapStream`) -/
+def canonMapStreamTetraplet (scalars : Scalars) (stream : List ValueAggregate) (h : Lens.ValueAccessor) (body : List Accessor) : ER Tetraplet :=
+  match Lens.splitToIdx scalars h with
+  | .ok idx =>
+    match stream[idx]? with
+    | none => lambdaErr (.canonStreamNotHaveEnoughValues stream.length idx)
+    | some va =>
+      if body.isEmpty then .ok va.tetraplet
+      else .ok (updateTetrapletWithPath va.tetraplet ("." ++ ".".intercalate (body.map Accessor.render)) true)
+  | .error e => .error e
+  | .panic s => .panic s
+
+/-- tetraplet part of `select_by_lambda_from_canon_map` (`MapLensResult.tetraplet`) -/
+def canonMapLensTetraplet (c : Ctx) (m : CanonStreamMapAgg) (l : Lambda) : ER Tetraplet :=
   match l with
-  | .path as => selectByPathFromScalar scalars v as
-  | .functorLength =>
-    match v with
-    | .arr a => .ok (.num a.length)
-    | _ => catchable (.lengthFunctorAppliedToNotArray v)
+  | .functorLength => .ok { peerPk := c.currentPeerId, lens := "length" }     -- `MapLensResult::with_functor`: `functor.to_string()`
+  | .path [] => unmodelled "lens with an empty path (not constructible: `NonEmpty` in Rust)"
+  | .path (a :: body) =>
+    match Lens.canonMapKeyOfPrefix c.scalars (.ofAccessor a) with
+    | .ok key =>
+      match body, m.index key with
+      | b :: bs, some cs => canonMapStreamTetraplet c.scalars cs.values (.ofAccessor b) bs
+      | [], _ => .ok (updateTetrapletWithPath m.tetraplet l.render false)
+      | b :: bs, none => canonMapStreamTetraplet c.scalars [] (.ofAccessor b) bs
+    | .error e => .error e
+    | .panic s => .panic s
 
-/-- `populate_tetraplet_with_lambda` -/
-def populateTetrapletWithLambda (t : Tetraplet) (l : Lambda) : Tetraplet :=
-  match l with
-  | .path _ => t.addLens l.render
-  | .functorLength => { peerPk := "", lens := l.render }
+/-- `JValuable for &CanonStreamMap :: apply_lambda_with_tetraplets`: value by the lens applier of `Lens.lean`,
+tetraplet as above, provenance borrowed from the map -/
+def canonMapApplyLambda (c : Ctx) (m : CanonStreamMapAgg) (l : Lambda) (rootProvenance : Provenance) : ER (JVal × Tetraplet × Provenance) :=
+  lensOfLambda l fun lam =>
+    match Lens.selectByLambdaFromCanonMap c.scalars m.toLens lam with
+    | .ok v => (canonMapLensTetraplet c m l).bind fun t => .ok (v, t, rootProvenance)
+    | .error e => .error e
+    | .panic s => .panic s
 
 /-! ## resolver (`resolver/resolvable_impl.rs`) -/
 
@@ -117,20 +157,32 @@ def resolveValue (c : Ctx) (v : Value) : ER Resolved :=
     -- `Resolvable for ast::CanonStream`: the whole canon stream as an array, one tetraplet per element
     let cs ← c.scalars.getCanonStream name
     pure (.arr (cs.canonStream.values.map (·.result)), cs.canonStream.values.map (·.tetraplet), .canon cs.cid)
-  | .canonWL .. | .canonMap _ | .canonMapWL .. => unmodelled "canon stream operand with lens / canon map"
+  | .canonWL name l => do
+    -- `Resolvable for ast::CanonStreamWithLambda`
+    let cs ← c.scalars.getCanonStream name
+    let (v, t, p) ← canonStreamApplyLambda c cs.canonStream l (.canon cs.cid)
+    pure (v, [t], p)
+  | .canonMap name => do
+    -- `Resolvable for ast::CanonStreamMap`: the map as an object, one tetraplet per key-value pair
+    let cm ← c.scalars.getCanonMap name
+    pure (cm.canonStreamMap.asJvalue, cm.canonStreamMap.values.map (·.tetraplet), .canon cm.cid)
+  | .canonMapWL name l => do
+    -- `Resolvable for ast::CanonStreamMapWithLambda`
+    let cm ← c.scalars.getCanonMap name
+    let (v, t, p) ← canonMapApplyLambda c cm.canonStreamMap l (.canon cm.cid)
+    pure (v, [t], p)
 
 /-- `try_jvalue_to_string` of triplet parts -/
 def resolveToString (c : Ctx) (v : Value) : ER String :=
   match v with
   | .initPeerId => .ok c.initPeerId
   | .literal s => .ok s
-  | .scalar name | .scalarWL name _ => do
+  | .scalar name | .scalarWL name _ | .canonWL name _ | .canonMapWL name _ => do
     let (jv, _, _) ← resolveValue c v
     match jv with
     | .str s => pure s
     | _ => catchable (.nonStringValueInTripletResolution name jv)
-  | .canonWL .. | .canonMapWL .. => unmodelled "canon stream in triplet"
-  | _ => unmodelled "triplet part"
+  | _ => unmodelled "triplet part (not in `ResolvableToPeerIdVariable` / `ResolvableToStringVariable`)"
 
 /-! ## errors → `:error:` / `%last_error%` (`context.rs: set_errors`) -/
 
